@@ -428,22 +428,26 @@ func (e *Executor) OnTargetComplete(ctx context.Context, target *model.Target, u
 	logger := console.GetLogger(ctx)
 	var targetResult *gen.TargetResult
 	var err error
-	if target.SkipsCache() || !e.enableCache {
-		logger.Debugf("%s: skipping cache write", target.Label)
-		targetResult, err = e.registry.GetNoCacheOutputHash(ctx, target)
-		// TODO should we even store this in the cache given that the target
-		// is no-cache? Probably fine from a user perspective
-		// since it's the target cache and not the output cache
-	} else if len(target.AllOutputs()) == 0 {
+	if len(target.AllOutputs()) == 0 {
 		logger.Debugf("%s: no outputs to write", target.Label)
 		// NOTE: This is a special and intentional design
 		// Targets that do not have any outputs expose their own change behavior as an output
-		// analogous to file_groups
+		// analogous to file_groups.
+		// This also holds when the cache is bypassed (no-cache tag, --enable-cache=false): the
+		// record of such a run is a usable cache hit later (there is nothing to load), so it must
+		// expose the same output hash as a run with the cache enabled. Otherwise dependants are
+		// invalidated when nothing changed and are not invalidated when this target changes.
 		targetResult = &gen.TargetResult{
 			ChangeHash:              target.ChangeHash,
 			OutputHash:              target.ChangeHash,
 			ExecutionDurationMillis: target.ExecutionTime.Milliseconds(),
 		}
+	} else if target.SkipsCache() || !e.enableCache {
+		logger.Debugf("%s: skipping cache write", target.Label)
+		targetResult, err = e.registry.GetNoCacheOutputHash(ctx, target)
+		// TODO should we even store this in the cache given that the target
+		// is no-cache? Probably fine from a user perspective
+		// since it's the target cache and not the output cache
 	} else {
 		logger.Debugf("%s: writing %d outputs", target.Label, len(target.AllOutputs()))
 		progress := worker.NewProgressTracker(
